@@ -10,6 +10,7 @@
 #define _GNU_SOURCE
 #include "vs.h"
 #include <errno.h>
+#include <sched.h>
 #include <signal.h>
 #include <stdint.h>
 #include <stdio.h>
@@ -34,11 +35,12 @@ typedef int (*vb_step_fn)(void *ctx, const vb_hist *h, int op, uint64_t *key,
 typedef int (*vb_nops_fn)(void *ctx, const vb_hist *h);
 typedef void (*vb_desc_fn)(void *ctx, const vb_hist *h, char *out, size_t sz);
 
+#define VB_MAXW 16
 typedef struct vb_shared {
+	volatile int lock;
 	size_t  qh, qt, qcap;
+	int     busy; // workers currently expanding a state
 	long    states, trans, skipped, nviol;
-	int     cur_op; // op being executed on Q[qh] (for crash recovery)
-	int     in_step;
 	int     deepest;
 	int     timecut, depthcut, qfull;
 	uint64_t seen_mask;
@@ -49,6 +51,11 @@ typedef struct vb_shared {
 		char sig[120];
 		char msg[900];
 	} v[64];
+	struct {
+		size_t idx;  // state being expanded
+		int    op;   // op being executed
+		int    in_step, has_state;
+	} w[VB_MAXW];
 } vb_shared;
 
 static inline uint64_t
@@ -61,6 +68,26 @@ vb_fnv(uint64_t h, const void *p, size_t n)
 }
 #define VB_FNV0 0xcbf29ce484222325ull
 
+static void
+vb_lock(vb_shared *S)
+{
+	int spins = 0;
+	while (__atomic_exchange_n(&S->lock, 1, __ATOMIC_ACQUIRE))
+		while (S->lock) {
+			__builtin_ia32_pause();
+			if (++spins > 200) {
+				sched_yield();
+				spins = 0;
+			}
+		}
+}
+static void
+vb_unlock(vb_shared *S)
+{
+	__atomic_store_n(&S->lock, 0, __ATOMIC_RELEASE);
+}
+
+// lock-free insert (compare-and-swap on the slot)
 static int
 vb_seen_add(uint64_t *seen, uint64_t mask, uint64_t k)
 {
@@ -68,11 +95,16 @@ vb_seen_add(uint64_t *seen, uint64_t mask, uint64_t k)
 		k = 1;
 	uint64_t h = (k * 0x9E3779B97F4A7C15ull) & mask;
 	for (;;) {
-		if (seen[h] == k)
+		uint64_t cur = __atomic_load_n(&seen[h], __ATOMIC_ACQUIRE);
+		if (cur == k)
 			return 0;
-		if (seen[h] == 0) {
-			seen[h] = k;
-			return 1;
+		if (cur == 0) {
+			uint64_t exp = 0;
+			if (__atomic_compare_exchange_n(&seen[h], &exp, k, 0,
+			        __ATOMIC_ACQ_REL, __ATOMIC_ACQUIRE))
+				return 1;
+			if (exp == k)
+				return 0;
 		}
 		h = (h + 1) & mask;
 	}
@@ -81,19 +113,109 @@ vb_seen_add(uint64_t *seen, uint64_t mask, uint64_t k)
 static void
 vb_record(vb_shared *S, const char *sig, const char *msg)
 {
+	vb_lock(S);
 	S->nviol++;
+	int found = 0;
 	for (int i = 0; i < S->nv; i++)
 		if (strcmp(S->v[i].sig, sig) == 0)
-			return;
-	if (S->nv < 64) {
+			found = 1;
+	if (!found && S->nv < 64) {
 		snprintf(S->v[S->nv].sig, sizeof(S->v[0].sig), "%s", sig);
 		snprintf(S->v[S->nv].msg, sizeof(S->v[0].msg), "%s", msg);
 		S->nv++;
 	}
+	vb_unlock(S);
 }
 
-// Runs one BFS; accumulates into the global counters via vx_add_counts.
-// log2_seen: size of the visited table; qcap: queue capacity (histories)
+static void
+vb_worker(int wi, vb_shared *S, uint64_t *seen, vb_hist *Q, void *ctx,
+    vb_step_fn step, vb_nops_fn nops, vb_desc_fn desc, int maxdepth,
+    int maxviol)
+{
+	char sig[120], err[800], d[400];
+	for (;;) {
+		size_t idx;
+		int    op0 = 0;
+		if (S->w[wi].has_state) {
+			// resuming after a crash inside a transition
+			idx = S->w[wi].idx;
+			op0 = S->w[wi].op;
+		} else {
+			vb_lock(S);
+			if (S->qh < S->qt && S->nviol < maxviol && !S->timecut) {
+				idx = S->qh++;
+				S->busy++;
+				S->w[wi].idx       = idx;
+				S->w[wi].op        = 0;
+				S->w[wi].has_state = 1;
+				vb_unlock(S);
+			} else {
+				int done = (S->busy == 0) || S->nviol >= maxviol ||
+				    S->timecut;
+				vb_unlock(S);
+				if (done)
+					_exit(0);
+				usleep(200);
+				continue;
+			}
+		}
+		vb_hist h = Q[idx];
+		if (h.n > S->deepest)
+			S->deepest = h.n;
+		if (h.n >= maxdepth || h.n >= VB_MAXH - 1) {
+			S->depthcut = 1;
+		} else if (vx_time_left() < 8) {
+			S->timecut = 1;
+		} else {
+			int n = nops(ctx, &h);
+			for (int op = op0; op < n; op++) {
+				uint64_t key    = 0;
+				S->w[wi].op     = op;
+				S->w[wi].in_step = 1;
+				sig[0] = err[0] = 0;
+				int r = step(ctx, &h, op, &key, sig, sizeof(sig), err,
+				    sizeof(err));
+				S->w[wi].in_step = 0;
+				if (r == 1) {
+					__atomic_add_fetch(&S->skipped, 1, __ATOMIC_RELAXED);
+					continue;
+				}
+				__atomic_add_fetch(&S->trans, 1, __ATOMIC_RELAXED);
+				vb_hist h2    = h;
+				h2.op[h2.n++] = (uint8_t) op;
+				if (r < 0) {
+					char msg[1300];
+					desc(ctx, &h2, d, sizeof(d));
+					snprintf(msg, sizeof(msg), "%s => %s", d, err);
+					vb_record(S, sig, msg);
+					continue;
+				}
+				if (vb_seen_add(seen, S->seen_mask, key)) {
+					vb_lock(S);
+					S->states++;
+					if (S->qt < S->qcap)
+						Q[S->qt++] = h2;
+					else
+						S->qfull = 1;
+					if (S->nsample < 4 && (S->states % 7919) == 2) {
+						desc(ctx, &h2, S->sample[S->nsample],
+						    sizeof(S->sample[0]));
+						S->nsample++;
+					}
+					vb_unlock(S);
+				}
+			}
+		}
+		vb_lock(S);
+		S->busy--;
+		S->w[wi].has_state = 0;
+		vb_unlock(S);
+	}
+}
+
+// Runs one BFS with up to 16 worker processes; accumulates into the global
+// counters via vx_add_counts.  log2_seen: size of the visited table; qcap:
+// queue capacity (histories)
 static void
 vb_run(const char *name, void *ctx, vb_step_fn step, vb_nops_fn nops,
     vb_desc_fn desc, int maxdepth, int log2_seen, size_t qcap, int maxviol)
@@ -115,110 +237,77 @@ vb_run(const char *name, void *ctx, vb_step_fn step, vb_nops_fn nops,
 	Q[0].n       = 0;
 	S->qt        = 1;
 	S->states    = 1;
-	int errfd    = memfd_create("vberr", 0);
-	for (int rounds = 0; rounds < 200; rounds++) {
-		fflush(NULL);
-		if (ftruncate(errfd, 0) != 0) {
-		}
-		lseek(errfd, 0, SEEK_SET);
-		pid_t pid = fork();
-		if (pid == 0) {
-			dup2(errfd, 2);
-			char sig[120], err[800], d[400];
-			while (S->qh < S->qt && S->nviol < maxviol) {
-				vb_hist h = Q[S->qh];
-				if (h.n > S->deepest)
-					S->deepest = h.n;
-				if (h.n >= maxdepth || h.n >= VB_MAXH - 1) {
-					S->depthcut = 1;
-					S->qh++;
-					S->cur_op = 0;
-					continue;
-				}
-				if (vx_time_left() < 8) {
-					S->timecut = 1;
-					break;
-				}
-				int n = nops(ctx, &h);
-				for (int op = S->cur_op; op < n; op++) {
-					uint64_t key = 0;
-					S->cur_op    = op;
-					S->in_step   = 1;
-					sig[0] = err[0] = 0;
-					int r = step(ctx, &h, op, &key, sig, sizeof(sig), err,
-					    sizeof(err));
-					S->in_step = 0;
-					if (r == 1) {
-						S->skipped++;
-						continue;
-					}
-					S->trans++;
-					vb_hist h2     = h;
-					h2.op[h2.n++]  = (uint8_t) op;
-					if (r < 0) {
-						char msg[1300];
-						desc(ctx, &h2, d, sizeof(d));
-						snprintf(msg, sizeof(msg), "%s => %s", d, err);
-						vb_record(S, sig, msg);
-						continue;
-					}
-					if (vb_seen_add(seen, S->seen_mask, key)) {
-						S->states++;
-						if (S->qt < S->qcap)
-							Q[S->qt++] = h2;
-						else
-							S->qfull = 1;
-						if (S->nsample < 4 &&
-						    (S->states % 7919) == 2) {
-							desc(ctx, &h2, S->sample[S->nsample],
-							    sizeof(S->sample[0]));
-							S->nsample++;
-						}
-					}
-				}
-				S->cur_op = 0;
-				S->qh++;
-			}
+	int   W      = VB_MAXW;
+	pid_t pid[VB_MAXW];
+	int   efd[VB_MAXW];
+	int   crashes = 0;
+	for (int w = 0; w < W; w++) {
+		efd[w] = memfd_create("vberr", 0);
+		pid[w] = -1;
+	}
+	fflush(NULL);
+	int live = 0;
+	for (int w = 0; w < W; w++) {
+		pid[w] = fork();
+		if (pid[w] == 0) {
+			dup2(efd[w], 2);
+			dup2(efd[w], 1);
+			setvbuf(stdout, NULL, _IONBF, 0);
+			vb_worker(w, S, seen, Q, ctx, step, nops, desc, maxdepth,
+			    maxviol);
 			_exit(0);
 		}
-		int st = 0;
-		while (waitpid(pid, &st, 0) < 0 && errno == EINTR)
-			;
-		if (WIFEXITED(st) && WEXITSTATUS(st) == 0)
+		live++;
+	}
+	while (live > 0) {
+		int   st = 0;
+		pid_t p  = wait(&st);
+		if (p < 0) {
+			if (errno == EINTR)
+				continue;
 			break;
-		// crashed inside a transition: record and resume after it
-		char        eb[6000];
-		off_t       len = lseek(errfd, 0, SEEK_END);
-		(void) len;
-		lseek(errfd, 0, SEEK_SET);
-		ssize_t got = read(errfd, eb, sizeof(eb) - 1);
+		}
+		int w;
+		for (w = 0; w < W; w++)
+			if (pid[w] == p)
+				break;
+		if (w == W)
+			continue;
+		pid[w] = -1;
+		live--;
+		if (WIFEXITED(st) && WEXITSTATUS(st) == 0)
+			continue;
+		// crashed inside a transition: record it, resume after it
+		crashes++;
+		char eb[6000];
+		lseek(efd[w], 0, SEEK_SET);
+		ssize_t got = read(efd[w], eb, sizeof(eb) - 1);
 		eb[got > 0 ? got : 0] = 0;
-		char sig[200] = "crash", d[400], msg[1300];
-		// signature: sanitizer kind + first nng frames
-		const char *p = strstr(eb, "ERROR: AddressSanitizer: ");
+		char        sig[200] = "crash", d[400], msg[1300];
+		const char *q        = strstr(eb, "ERROR: AddressSanitizer: ");
 		char        kind[80] = "crash";
-		if (p) {
-			p += 25;
+		if (q) {
+			q += 25;
 			int i = 0;
-			while (p[i] && p[i] != ' ' && p[i] != '\n' && i < 60) {
-				kind[i] = p[i];
+			while (q[i] && q[i] != ' ' && q[i] != '\n' && i < 60) {
+				kind[i] = q[i];
 				i++;
 			}
 			kind[i] = 0;
-		} else if ((p = strstr(eb, "runtime error: ")) != NULL) {
+		} else if (strstr(eb, "runtime error: ")) {
 			snprintf(kind, sizeof(kind), "ubsan");
 		} else if (strstr(eb, "panic")) {
 			snprintf(kind, sizeof(kind), "panic");
 		}
 		char fr[100] = "";
-		p            = eb;
+		q            = eb;
 		int nf       = 0;
-		while (nf < 2 && (p = strstr(p, " in ")) != NULL) {
-			p += 4;
+		while (nf < 2 && (q = strstr(q, " in ")) != NULL) {
+			q += 4;
 			char f[64];
 			int  i = 0;
-			while (p[i] && p[i] != ' ' && p[i] != '\n' && i < 60) {
-				f[i] = p[i];
+			while (q[i] && q[i] != ' ' && q[i] != '\n' && i < 60) {
+				f[i] = q[i];
 				i++;
 			}
 			f[i] = 0;
@@ -238,19 +327,39 @@ vb_run(const char *name, void *ctx, vb_step_fn step, vb_nops_fn nops,
 				*dash = 0;
 			snprintf(sig, sizeof(sig), "%s:%s@%s", pre, kind, fr);
 		}
-		vb_hist h2 = Q[S->qh];
-		if (S->in_step && h2.n < VB_MAXH - 1)
-			h2.op[h2.n++] = (uint8_t) S->cur_op;
-		desc(ctx, &h2, d, sizeof(d));
+		if (S->lock) // the worker cannot have died holding it, but be safe
+			S->lock = 0;
+		if (S->w[w].has_state) {
+			vb_hist h2 = Q[S->w[w].idx];
+			if (S->w[w].in_step && h2.n < VB_MAXH - 1)
+				h2.op[h2.n++] = (uint8_t) S->w[w].op;
+			desc(ctx, &h2, d, sizeof(d));
+			S->w[w].op++; // resume with the next op of the same state
+			S->w[w].in_step = 0;
+		} else
+			snprintf(d, sizeof(d), "(between states)");
 		snprintf(msg, sizeof(msg), "%s => %.700s", d, eb);
 		vb_record(S, sig, msg);
-		S->trans++;
-		S->cur_op++; // resume with the next op of the same state
-		S->in_step = 0;
-		if (!WIFEXITED(st) && !WIFSIGNALED(st))
-			break;
+		__atomic_add_fetch(&S->trans, 1, __ATOMIC_RELAXED);
+		if (crashes < 400) {
+			if (ftruncate(efd[w], 0) != 0) {
+			}
+			lseek(efd[w], 0, SEEK_SET);
+			fflush(NULL);
+			pid[w] = fork();
+			if (pid[w] == 0) {
+				dup2(efd[w], 2);
+				dup2(efd[w], 1);
+				setvbuf(stdout, NULL, _IONBF, 0);
+				vb_worker(w, S, seen, Q, ctx, step, nops, desc, maxdepth,
+				    maxviol);
+				_exit(0);
+			}
+			live++;
+		}
 	}
-	close(errfd);
+	for (int w = 0; w < W; w++)
+		close(efd[w]);
 	for (int i = 0; i < S->nv; i++)
 		vx_violation(S->v[i].sig, "%s", S->v[i].msg);
 	for (int i = 0; i < S->nsample; i++)
@@ -261,9 +370,9 @@ vb_run(const char *name, void *ctx, vb_step_fn step, vb_nops_fn nops,
 		vx_set_exhaustive(0);
 	fprintf(stderr,
 	    "[vbfs] %s: states=%ld transitions=%ld skipped=%ld deepest=%d "
-	    "closed=%d timecut=%d violations=%ld\n",
+	    "closed=%d timecut=%d violations=%ld crashes=%d\n",
 	    name, S->states, S->trans, S->skipped, S->deepest, closed, S->timecut,
-	    S->nviol);
+	    S->nviol, crashes);
 	char note[300];
 	snprintf(note, sizeof(note),
 	    "states=%ld transitions=%ld deepest=%d depth_bound=%d closed_under_"
